@@ -18,6 +18,8 @@ graphs (networkx graphs built by the checker; nothing of pynguin is imported or 
                every shape becomes a current goal; an uncovered current goal stays current.
 Not decided: that the shapes cover every CDG a Python module can produce (they are representatives: nested,
 sequential, loop, excluded block in the middle, excluded loop header in front of a loop, handler block).
+Further clauses (added later): C07.deps interprets the control-dependence queries over graphs with chains of
+unlabelled edges, a single-call fixed point and roots reached through two unlabelled controllers.
 """
 
 from __future__ import annotations
